@@ -892,7 +892,11 @@ where
 		Some(tx) => {
 			let mut slate = Slate::blank(2, false);
 			slate.tx = Some(tx.clone());
-			slate.fee_fields = tx.aggregate_fee_fields().unwrap(); // apply fee mask past HF4
+			// apply fee mask past HF4 (the transaction stored when the outputs were locked
+			// carries no fee yet if the reply came over the compact wire format)
+			slate.fee_fields = tx.aggregate_fee_fields().map_err(|e| {
+				Error::StoredTx(format!("stored transaction {} has no valid fee: {}", id, e))
+			})?;
 			slate.id = id;
 			slate.offset = tx.offset;
 			slate.state = SlateState::Standard3;
